@@ -22,7 +22,8 @@ def crossbar_shape(ctx, rid, rel, cls, decoder_cls, arbiter_cls):
         masters = [pyconst.Tok("master", i) for i in range(M)]
         slaves = [(pyconst.Tok("match", j), pyconst.Tok("bus", j)) for j in range(N)]
         env = dict(pyconst.module_consts(m.tree))
-        env.update(masters=masters, slaves=slaves)
+        reg = pyconst.Tok("register", 0)
+        env.update(masters=masters, slaves=slaves, register=reg)
         it = pyconst.Interp(env, objects=True)
         try:
             it.run(init.body)
@@ -42,6 +43,8 @@ def crossbar_shape(ctx, rid, rel, cls, decoder_cls, arbiter_cls):
                 problems.append(f"{decoder_cls} at L{d.line} is not built on one master and a list of (matcher, interface) pairs")
                 continue
             seen_m.append(mi.n)
+            if "register" in [a.arg for a in init.args.args] and not (len(d.args) > 2 and d.args[2] == reg or d.kwargs.get("register") == reg):
+                problems.append(f"{decoder_cls} of master {mi.n} is not built with the crossbar's `register` setting")
             if len(rows) != N:
                 problems.append(f"{decoder_cls} of master {mi.n} sees {len(rows)} of the {N} slaves")
             for j, pr in enumerate(rows):
